@@ -137,8 +137,19 @@ def request_table(cls: ast.ClassDef, enum: str, owner: str) -> List[Tuple[str, O
     """`rm.add_request("name", RequestType(func=lambda …: RequestResponse.from_bool(self.m()), validator=v))` → (name, state|None, m)"""
     fn = find_method(cls, "_init_request_manager")
     vals: Dict[str, str] = {}
+    local_handlers: Dict[str, str] = {}
     out = []
     for st in body_no_doc(fn):
+        if isinstance(st, ast.FunctionDef):
+            # a local handler.  The one shape accepted: `self.run()` then
+            # `return RequestResponse.from_bool(self.operating_state == <Enum>.RUNNING)`  (Application's generic `execute`)
+            b = body_no_doc(st)
+            if (len(b) == 2 and isinstance(b[0], ast.Expr) and ast.unparse(b[0].value) == "self.run()"
+                    and isinstance(b[1], ast.Return)
+                    and ast.unparse(b[1].value) == f"RequestResponse.from_bool(self.operating_state == {enum}.RUNNING)"):
+                local_handlers[st.name] = "run-then-RUNNING"
+                continue
+            raise ValueError(f"{owner}._init_request_manager: unrecognised local handler {st.name}")
         if isinstance(st, ast.Assign) and isinstance(st.value, ast.Call) and ast.unparse(st.value.func) == f"{owner}._StateValidator":
             kw = {k.arg: k.value for k in st.value.keywords}
             vals[ast.unparse(st.targets[0])] = state_names(kw["state"], enum)[0]
@@ -152,10 +163,13 @@ def request_table(cls: ast.ClassDef, enum: str, owner: str) -> List[Tuple[str, O
                 raise ValueError(f"{owner}._init_request_manager: unrecognised add_request {ast.unparse(call)}")
             rkw = {k.arg: k.value for k in rt.keywords}
             lam = rkw.get("func")
-            m = re.fullmatch(r"lambda request, context: RequestResponse\.from_bool\(self\.(\w+)\((.*)\)\)", ast.unparse(lam))
-            if not m:
-                raise ValueError(f"{owner} route {name.value}: unrecognised handler {ast.unparse(lam)}")
-            meth = m.group(1) if not m.group(2) else f"{m.group(1)}({m.group(2)})"
+            if isinstance(lam, ast.Name) and lam.id in local_handlers:
+                meth = local_handlers[lam.id]
+            else:
+                m = re.fullmatch(r"lambda request, context: RequestResponse\.from_bool\(self\.(\w+)\((.*)\)\)", ast.unparse(lam))
+                if not m:
+                    raise ValueError(f"{owner} route {name.value}: unrecognised handler {ast.unparse(lam)}")
+                meth = m.group(1) if not m.group(2) else f"{m.group(1)}({m.group(2)})"
             v = rkw.get("validator")
             state = None
             if v is not None:
@@ -375,6 +389,7 @@ def class_table() -> List[dict]:
                                 and not _only_super(r[1], m_)),
             "run_overrides_ok": _run_ok(cs, name) if kind == "application" else True,
             "base_routes": _base_routes(cs, name),
+            "generic_execute": _generic_execute(cs, name) if kind == "application" else True,
         })
     return rows
 
@@ -383,6 +398,24 @@ def _only_super(fn: ast.FunctionDef, meth: str) -> bool:
     """an override that only does class-specific set-up around `super().<meth>()` without touching operating_state"""
     src = ast.unparse(fn)
     return "operating_state" not in src and (f"super().{meth}(" in src or meth in ("install",))
+
+
+def _generic_execute(cs: Classes, name: str) -> bool:
+    """no `_init_request_manager` below Application registers a route called `execute` (so Application's generic one stays)"""
+    cur = None
+    while True:
+        r = cs.resolve(name, "_init_request_manager", cur)
+        if r is None:
+            return False
+        owner, fn = r
+        if owner == "Application":
+            return True
+        for n in ast.walk(fn):
+            if isinstance(n, ast.Call) and ast.unparse(n.func).endswith(".add_request"):
+                a0 = n.args[0] if n.args else next((k.value for k in n.keywords if k.arg == "name"), None)
+                if isinstance(a0, ast.Constant) and a0.value == "execute":
+                    return False
+        cur = owner
 
 
 def _base_routes(cs: Classes, name: str) -> bool:
@@ -559,10 +592,10 @@ def emit() -> str:
 
     # class table
     tbl = class_table()
-    L.append("/-- every concrete Service / Application class shipped: `(class, name, discriminator, isApp, port, proto, receive-guard, ctor runs/starts, apply_timestep reaches base, run override ok, request manager built on super's)` -/")
-    L.append("def classes : List (String × String × String × Bool × Nat × Nat × String × Bool × Bool × Bool × Bool) := [\n  " + ",\n  ".join(
+    L.append("/-- every concrete Service / Application class shipped: `(class, name, discriminator, isApp, port, proto, receive-guard, ctor runs/starts, apply_timestep reaches base, run override ok, request manager built on super's, execute is the generic one)` -/")
+    L.append("def classes : List (String × String × String × Bool × Nat × Nat × String × Bool × Bool × Bool × Bool × Bool) := [\n  " + ",\n  ".join(
         f'("{r["cls"]}", "{r["name"]}", "{r["disc"] or ""}", {str(r["kind"] == "application").lower()}, {r["port"]}, {r["proto"]}, '
-        f'"{r["guard"]}", {str(r["ctor_runs"]).lower()}, {str(r["ticks"]).lower()}, {str(r["run_overrides_ok"]).lower()}, {str(r["base_routes"]).lower()})' for r in tbl) + "]")
+        f'"{r["guard"]}", {str(r["ctor_runs"]).lower()}, {str(r["ticks"]).lower()}, {str(r["run_overrides_ok"]).lower()}, {str(r["base_routes"]).lower()}, {str(r["generic_execute"]).lower()})' for r in tbl) + "]")
     L.append("/-- subclasses that override a lifecycle method with something other than set-up around `super()` -/")
     L.append("def lifecycleOverrides : List (String × String) := [" +
              ", ".join(f'("{r["cls"]}", "{m}")' for r in tbl for m in r["overrides"]) + "]")
